@@ -98,7 +98,20 @@ func (bp BundlePart) Load() (b bpv7.Bundle, err error) {
 
 // calcExpirationDate for a Bundle.
 func calcExpirationDate(b bpv7.Bundle) time.Time {
-	// TODO: check Bundle Age Block
+	if b.PrimaryBlock.CreationTimestamp.IsZeroTime() {
+		// The source had no clock: the remaining lifetime, based on the Bundle Age Block, starts now.
+		var age uint64
+		if ageBlock, err := b.ExtensionBlock(bpv7.ExtBlockTypeBundleAgeBlock); err == nil {
+			age = ageBlock.Value.(*bpv7.BundleAgeBlock).Age()
+		}
+
+		var remaining uint64
+		if age < b.PrimaryBlock.Lifetime {
+			remaining = b.PrimaryBlock.Lifetime - age
+		}
+		return time.Now().Add(time.Duration(remaining) * time.Millisecond)
+	}
+
 	return b.PrimaryBlock.CreationTimestamp.DtnTime().Time().Add(
 		time.Duration(b.PrimaryBlock.Lifetime) * time.Millisecond)
 }
